@@ -9,7 +9,7 @@ Steps: (1) in a scratch worktree: apply, build, baseline, demo fails with / pass
 import json, os, subprocess, sys, shutil, time
 
 ENV = dict(os.environ, GOFLAGS='-mod=mod', GOPROXY='off', GOSUMDB='off', GOTOOLCHAIN='local')
-OUT = '/tmp/mut/out'
+OUT = os.environ.get('SEED_OUT', '/tmp/mut/out')
 
 
 def sh(cmd, cwd=None, timeout=3600):
